@@ -65,7 +65,7 @@ fn entry_details_from_metadata(m: std::fs::Metadata, path: &Path) -> Result<Entr
         // We use RootRelativePath for this even though it might not be root-relative, but this does the right thing
         let target = match RootRelativePath::try_from(&target as &Path) {
             Ok(r) => SymlinkTarget::Normalized(r.to_string()),
-            Err(_) => SymlinkTarget::NotNormalized(target.to_string_lossy().to_string()),
+            Err(_) => SymlinkTarget::NotNormalized(boss_doer_interface::symlink_target_to_bytes(&target)),
         };
 
         // On Windows, symlinks are either file-symlinks or dir-symlinks
@@ -778,8 +778,8 @@ fn handle_create_symlink(path: RootRelativePath, context: &mut DoerContext, #[al
 
     // Convert the normalized forwards slashes to backwards slashes if this is windows
     let target = match target {
-        SymlinkTarget::Normalized(s) => s.replace("/", &path::MAIN_SEPARATOR.to_string()),
-        SymlinkTarget::NotNormalized(s) => s, // No normalisation was possible on the src, so leave it as-is
+        SymlinkTarget::Normalized(s) => PathBuf::from(s.replace("/", &path::MAIN_SEPARATOR.to_string())),
+        SymlinkTarget::NotNormalized(b) => boss_doer_interface::symlink_target_from_bytes(b), // No normalisation was possible on the src, so leave it as-is
     };
 
     #[cfg(windows)]
